@@ -2,10 +2,14 @@
    signature table regenerated from the source. The borrow checker itself is the oracle of the
    compile corpus; Coq's part is that the enumeration is complete and what "tied" means is fixed. *)
 From Flurry Require Import Model.Types Proofs.TypesProofs.
-From Coq Require Import List.
+From Coq Require Import List String NArith.
+Import ListNotations.
+Open Scope string_scope.
 
 (* every public method of HashMap, HashSet, HashMapRef, HashSetRef whose return type carries a
-   lifetime mentions in it the lifetime of `self` and of every guard parameter *)
+   lifetime: EVERY lifetime in that type (each reference handed out, each half of a pair) is
+   bounded by the lifetime of `self` and by that of every guard parameter - equal to it, or below
+   it through declared outlives bounds *)
 Theorem C16_results_tied : forall r, In r sigs -> borrow_row r = true -> row_tied r = true.
 Proof. exact every_borrow_tied. Qed.
 Print Assumptions C16_results_tied.
@@ -17,3 +21,16 @@ Print Assumptions C16_no_static.
 Theorem C16_table_not_trivial : 30 <= borrow_rows.
 Proof. exact borrow_rows_many. Qed.
 Print Assumptions C16_table_not_trivial.
+
+(* the predicate is not satisfied by merely mentioning both lifetimes somewhere: a pair whose value
+   half is tied to the guard only (`(&'m K, &'g V)` with `'g: 'm`) is rejected, its key half alone
+   would be accepted *)
+Theorem C16_split_pair_rejected :
+  row_tied {| g_file := ""; g_ty := "HashMap"; g_trait := ""; g_name := "get_key_value"; g_line := 0%N;
+              g_self := "m"; g_guards := ["g"]; g_ret_lts := ["m"; "g"]; g_outlives := [("g", "m")];
+              g_ret := ""; g_borrow := true; g_static := false |} = false /\
+  row_tied {| g_file := ""; g_ty := "HashMap"; g_trait := ""; g_name := "get_key"; g_line := 0%N;
+              g_self := "m"; g_guards := ["g"]; g_ret_lts := ["m"]; g_outlives := [("g", "m")];
+              g_ret := ""; g_borrow := true; g_static := false |} = true.
+Proof. exact split_pair_rejected. Qed.
+Print Assumptions C16_split_pair_rejected.
